@@ -348,6 +348,10 @@ func (o *oracle) checkAfterEvent(e *event) {
 		if !n.alive {
 			continue
 		}
+		if !cl.recoverSeen && n.cs != nil && n.cs.VerifStepRecover() {
+			cl.recoverSeen = true
+			cl.tracef("node%d entered recover mode", n.idx)
+		}
 		if n.failed {
 			site := firstRepoFrame(n.failMsg)
 			cl.tracef("node%d CONSENSUS FAILURE at %s", n.idx, site)
